@@ -341,20 +341,35 @@ func copyDenseIter(dst, src DenseTensor, diter, siter Iterator) (int, error) {
 		siter = FlatIteratorFromDense(src)
 	}
 
-	// if it's a masked tensor, we copy the mask as well
+	count := storage.CopyIter(dst.rtype(), dst.hdr(), src.hdr(), diter, siter)
+
+	// if it's a masked tensor, we copy the mask as well, the way the data was copied:
+	// element by element along the iterators
 	if ms, ok := src.(MaskedTensor); ok && ms.IsMasked() {
 		if md, ok := dst.(MaskedTensor); ok {
 			dmask := md.Mask()
 			smask := ms.Mask()
-			if cap(dmask) < len(smask) {
-				dmask = make([]bool, len(smask))
+			if len(dmask) < dst.len() {
+				dmask = make([]bool, dst.len())
 				copy(dmask, md.Mask())
 				md.SetMask(dmask)
 			}
-			copy(dmask, smask)
+			diter.Reset()
+			siter.Reset()
+			for {
+				i, err := diter.Next()
+				if err != nil {
+					break
+				}
+				j, err := siter.Next()
+				if err != nil {
+					break
+				}
+				dmask[i] = smask[j]
+			}
 		}
 	}
-	return storage.CopyIter(dst.rtype(), dst.hdr(), src.hdr(), diter, siter), nil
+	return count, nil
 }
 
 type scalarPtrCount struct {
